@@ -98,8 +98,9 @@ def value_preds(draw, mesh_vars):
 
 
 # ------------------------------------------------------------------ resolving against a model
-def resolve(spec, m, exp):
-    """Turn the plain spec into concrete numbers: {"level": p, "pos": {axis: (lo, hi) box coords}, "val": (var, op, q_cgs)}"""
+def resolve(spec, m, exp, cand=None):
+    """Turn the plain spec into concrete numbers: {"level": p, "pos": {axis: (lo, hi) box coords}, "val": (var, op, q_cgs)}
+    cand: row indices of exp among which the leaf of a leaf-form box is chosen (default: all rows)"""
     out = {"level": spec.get("level"), "pos": {}, "val": None}
     L = m.levelmax
     h = 0.5 ** L
@@ -118,7 +119,9 @@ def resolve(spec, m, exp):
                 else:
                     i = int(p["leaf"] * n)
                 i = min(i, n - 1)
-                if p.get("corner") is not None:
+                if cand is not None and len(cand):
+                    i = int(cand[min(int(p["leaf"] * len(cand)), len(cand) - 1)])
+                if p.get("corner") is not None and cand is None:
                     corner = np.array([(p["corner"] >> k) & 1 for k in range(m.ndim)], dtype=float)
                     i = int(np.argmin(np.sum((exp["box"] - corner[None, :]) ** 2, axis=1)))
                 cen = exp["box"][i]
@@ -135,7 +138,15 @@ def resolve(spec, m, exp):
                     out["pos"][a] = _snap_interval(lo, hi, h)
     v = spec.get("val")
     if v and v["var"] in exp and len(exp[v["var"]]):
-        vals = np.unique(exp[v["var"]])
+        vals = exp[v["var"]]
+        if spec.get("val_from_window") and out["pos"]:
+            inside = np.ones(len(vals), dtype=bool)
+            for a, (lo, hi) in out["pos"].items():
+                x = exp["box"][:, "xyz".index(a)]
+                inside &= (x > lo) & (x < hi)
+            if inside.sum() >= 2:
+                vals = vals[inside]
+        vals = np.unique(vals)
         i = min(int(v["qf"] * len(vals)), len(vals) - 1)
         if len(vals) > 1:
             i = max(i, 1)
